@@ -1,4 +1,4 @@
-// C03 (level b) - fcppt::options::parse on composed parsers against the reference consumption model.
+// C03 (level b) - fcppt::options::parse on composed parsers against the reference consumption model (part 1).
 // See C03_model.hpp (reference semantics, vocabulary) and C03_env.hpp (what is replaced: value conversion is an
 // uninterpreted function, message formatting a placeholder).
 // Real code: options::parse, detail::parse_to_empty, argument/flag/switch_/option/unit/unit_switch/optional/many/
@@ -7,8 +7,9 @@
 // Inputs: argument vector of n tokens (n = shape parameter), every token a symbolic choice from
 //   {the parser's own "--long"/"-short" names, "-z" (foreign flag), "-", "--", "12", "xy" [, ""]};
 //   flag active/inactive values and option default values symbolic 32-bit; int conversion = uninterpreted function.
-// Outside the claim: vectors longer than the registered n; tokens outside the alphabet; parse_help's usage text,
-// commands (C03_commands.cpp); enum value types; parsers passed by reference / unique_ptr / base<>.
+// Bounds: quick n <= 2 for every shape and n = 3 for the shapes marked so; thorough n <= 4.
+// Outside the claim: vectors longer than the registered n; tokens outside the alphabet; parse_help's usage text;
+// enum value types; parsers passed by unique_ptr / base<>.
 //@property C03
 //@unity options
 //@models rbtree
@@ -23,64 +24,54 @@ using sstr = std::string;
 #define SHAPE(name, ...) \
   VERIF_HARNESS(h_parse_##name) { check_parse<__VA_ARGS__>(false); }
 
-// 1. a single argument
+// a single argument
 SHAPE(arg, Arg<0, int>)
-//@harness h_parse_arg param n=0..3 tier=quick loop=200
-// 2. flag<int> then a string argument
+//@harness h_parse_arg param n=0..2 tier=quick loop=200
+//@harness h_parse_arg param n=3..3 tier=quick loop=200 cost=5
+//@harness h_parse_arg param n=4..4 tier=thorough loop=200 wall=6000 paths=400000
+
+// flag<int> then a string argument
 SHAPE(flag_arg, Prod<Flag<0, int, true>, Arg<1, sstr>>)
-//@harness h_parse_flag_arg param n=0..3 tier=quick loop=200
-// 3. argument first, then an option without default: the option's value must not become the argument
+//@harness h_parse_flag_arg param n=0..2 tier=quick loop=200
+//@harness h_parse_flag_arg param n=3..3 tier=quick loop=200 cost=5
+//@harness h_parse_flag_arg param n=4..4 tier=thorough loop=200 wall=6000 paths=400000
+
+// argument first, then an option without default: the option's value must not become the argument
 SHAPE(arg_opt, Prod<Arg<0, int>, Opt<1, int, true, false>>)
-//@harness h_parse_arg_opt param n=0..3 tier=quick loop=200
-// 4. option with default (string) then a string argument
+//@harness h_parse_arg_opt param n=0..2 tier=quick loop=200
+//@harness h_parse_arg_opt param n=3..3 tier=quick loop=200 cost=5
+//@harness h_parse_arg_opt param n=4..4 tier=thorough loop=200 wall=6000 paths=400000
+
+// option with default (string) then a string argument
 SHAPE(optdef_arg, Prod<Opt<0, sstr, false, true>, Arg<1, sstr>>)
-//@harness h_parse_optdef_arg param n=0..3 tier=quick loop=200
-// 5. switch and an optional argument
+//@harness h_parse_optdef_arg param n=0..2 tier=quick loop=200
+//@harness h_parse_optdef_arg param n=3..3 tier=thorough loop=200 wall=3000
+//@harness h_parse_optdef_arg param n=4..4 tier=thorough loop=200 wall=6000 paths=400000
+
+// switch and an optional argument
 SHAPE(switch_optarg, Prod<Switch<0, true>, Optional<Arg<1, int>>>)
-//@harness h_parse_switch_optarg param n=0..3 tier=quick loop=200
-// 6. many arguments and a switch
+//@harness h_parse_switch_optarg param n=0..2 tier=quick loop=200
+//@harness h_parse_switch_optarg param n=3..3 tier=thorough loop=200 wall=3000
+//@harness h_parse_switch_optarg param n=4..4 tier=thorough loop=200 wall=6000 paths=400000
+
+// many arguments and a switch
 SHAPE(many_arg_switch, Prod<Many<Arg<0, int>>, Switch<1, false>>)
-//@harness h_parse_many_arg_switch param n=0..3 tier=quick loop=200
-// 7. an optional option and an argument
+//@harness h_parse_many_arg_switch param n=0..2 tier=quick loop=200
+//@harness h_parse_many_arg_switch param n=3..3 tier=thorough loop=200 wall=3000
+//@harness h_parse_many_arg_switch param n=4..4 tier=thorough loop=200 wall=6000 paths=400000
+
+// an optional option and an argument
 SHAPE(optopt_arg, Prod<Optional<Opt<0, int, true, false>>, Arg<1, sstr>>)
-//@harness h_parse_optopt_arg param n=0..3 tier=quick loop=200
-// 8. many options (repeated option)
+//@harness h_parse_optopt_arg param n=0..2 tier=quick loop=200
+//@harness h_parse_optopt_arg param n=3..3 tier=quick loop=200 cost=5
+//@harness h_parse_optopt_arg param n=4..4 tier=thorough loop=200 wall=6000 paths=400000
+
+// many options (a repeated option)
 SHAPE(many_opt, Many<Opt<0, int, false, false>>)
-//@harness h_parse_many_opt param n=0..3 tier=quick loop=200
-// 9. sum of a help-like unit_switch and an argument
-SHAPE(sum_help_arg, Sum<2, USwitch<0, false>, Arg<1, int>>)
-//@harness h_parse_sum_help_arg param n=0..3 tier=quick loop=200
-// 10. sum of two products
-SHAPE(sum_prod, Sum<4, Prod<USwitch<0, true>, Arg<1, int>>, Prod<Arg<2, sstr>, Arg<3, sstr>>>)
-//@harness h_parse_sum_prod param n=0..3 tier=quick loop=200
-// 11. unit alone and after a unit_switch
+//@harness h_parse_many_opt param n=0..2 tier=quick loop=200
+//@harness h_parse_many_opt param n=3..3 tier=quick loop=200 cost=5
+//@harness h_parse_many_opt param n=4..4 tier=thorough loop=200 wall=6000 paths=400000
+
+// unit alone
 SHAPE(unit, Unit<0>)
 //@harness h_parse_unit param n=0..2 tier=quick loop=200
-SHAPE(uswitch_unit, Prod<USwitch<0, true>, Unit<1>>)
-//@harness h_parse_uswitch_unit param n=0..3 tier=quick loop=200
-// 12. three-way apply: argument, argument, switch
-SHAPE(arg_arg_switch, Prod3<Arg<0, int>, Arg<1, sstr>, Switch<2, true>>)
-//@harness h_parse_arg_arg_switch param n=0..3 tier=quick loop=200
-// 13. optional around a product
-SHAPE(opt_prod, Optional<Prod<Switch<0, true>, Arg<1, int>>>)
-//@harness h_parse_opt_prod param n=0..3 tier=quick loop=200
-// 14. many around a product
-SHAPE(many_prod, Many<Prod<Opt<0, int, false, false>, Arg<1, int>>>)
-//@harness h_parse_many_prod param n=0..3 tier=quick loop=200
-// 15. optional around a sum
-SHAPE(opt_sum, Prod<Optional<Sum<2, USwitch<0, false>, Arg<1, int>>>, Switch<3, false>>)
-//@harness h_parse_opt_sum param n=0..3 tier=quick loop=200
-// 16. argument before an optional option (unsigned): the option's value is skipped by the positional lookup
-SHAPE(arg_optopt, Prod<Arg<0, sstr>, Optional<Opt<1, unsigned, false, false>>>)
-//@harness h_parse_arg_optopt param n=0..3 tier=quick loop=200
-
-// ---- thorough: four tokens, and the alphabet extended by the empty token
-#define SHAPE_E(name, ...) \
-  VERIF_HARNESS(h_parsee_##name) { check_parse<__VA_ARGS__>(true); }
-SHAPE_E(flag_arg, Prod<Flag<0, int, true>, Arg<1, sstr>>)
-SHAPE_E(arg_opt, Prod<Arg<0, int>, Opt<1, int, true, false>>)
-SHAPE_E(optdef_arg, Prod<Opt<0, sstr, false, true>, Arg<1, sstr>>)
-SHAPE_E(many_opt, Many<Opt<0, int, false, false>>)
-SHAPE_E(sum_prod, Sum<4, Prod<USwitch<0, true>, Arg<1, int>>, Prod<Arg<2, sstr>, Arg<3, sstr>>>)
-//@harness h_parsee_{S} for S in flag_arg,arg_opt,optdef_arg,many_opt,sum_prod param n=0..3 tier=thorough loop=200 wall=3000 paths=200000
-//@harness h_parse_{S} for S in arg,flag_arg,arg_opt,optdef_arg,switch_optarg,many_arg_switch,optopt_arg,many_opt,sum_help_arg,sum_prod,uswitch_unit,arg_arg_switch,opt_prod,many_prod,opt_sum,arg_optopt param n=4..4 tier=thorough loop=200 wall=3000 paths=200000
